@@ -231,7 +231,7 @@ pub fn rset_sub() -> Box<dyn SubCheck> {
     PropSub {
         name: "rset",
         strategy: rset_strategy,
-        cases: |t| t.pick(30_000, 500_000),
+        cases: |t| t.pick(120000, 500000),
         run: run_rset,
         floors: &[("limit-within", 0.05), ("limit-exceeds", 0.10), ("limit-none", 0.10), ("touching-bound", 0.10)],
     }
@@ -461,7 +461,7 @@ pub fn text_sub() -> Box<dyn SubCheck> {
     PropSub {
         name: "text",
         strategy: text_strategy,
-        cases: |t| t.pick(60_000, 1_500_000),
+        cases: |t| t.pick(240000, 1500000),
         run: run_text,
         floors: &[("all-good", 0.15), ("inverted", 0.10), ("mixed-family", 0.08), ("accepted", 0.15), ("rejected", 0.20)],
     }
@@ -571,7 +571,7 @@ pub fn der_sub() -> Box<dyn SubCheck> {
     PropSub {
         name: "der",
         strategy: der_strategy,
-        cases: |t| t.pick(40_000, 1_500_000),
+        cases: |t| t.pick(160000, 1500000),
         run: run_der,
         floors: &[("inverted", 0.15), ("canonical-input", 0.05), ("bridging", 0.05)],
     }
@@ -649,7 +649,7 @@ pub fn prefixes_sub() -> Box<dyn SubCheck> {
     PropSub {
         name: "prefixes",
         strategy: pfx_strategy,
-        cases: |t| t.pick(60_000, 3_000_000),
+        cases: |t| t.pick(240000, 3000000),
         run: run_pfx,
         floors: &[("multi-prefix", 0.30), ("single-prefix", 0.05), ("touching-bound", 0.10)],
     }
